@@ -13,7 +13,7 @@ struct GenInput {
   int cls = 0;  // 0 valid, 1 prefix, 2 mutated, 3 random, 4 huge-header
 };
 
-inline const char* input_class_name(int c) { static const char* n[] = {"valid", "prefix", "mutated", "random", "huge-header", "at-string-limit"}; return n[c]; }
+inline const char* input_class_name(int c) { static const char* n[] = {"valid", "prefix", "mutated", "random", "huge-header", "at-string-limit", "long-number-token"}; return n[c]; }
 
 inline std::string gen_valid_json(Rng& r, int max_depth = 5) {
   GenOpt g; g.str_mode = (int)r.below(3) == 2 ? 2 : 1; g.dup_keys = r.chance(1, 4); g.max_depth = (int)r.range(0, max_depth); g.max_width = (int)r.range(0, 6);
@@ -93,6 +93,22 @@ inline GenInput gen_input(Rng& r, bool msgpack) {
     for (size_t i = 0; i < n; i++) in.bytes += jsonish ? alpha[r.below(sizeof alpha - 1)] : (char)r.below(256);
     in.cls = 3;
   } else { in.bytes = gen_huge_header_msgpack(r); in.cls = 4; }
+  // JSON: number tokens around the deserializer's 63-character token buffer (55..80 characters, 62..66 most often)
+  if (!msgpack && r.chance(1, 16)) {
+    size_t n = r.coin() ? (size_t)r.range(62, 66) : (size_t)r.range(55, 80);
+    std::string tok;
+    switch (r.below(5)) {
+      case 0: tok = "1." + std::string(n - 4, '0') + "e5"; break;
+      case 1: tok = std::string(n, '7'); break;
+      case 2: tok = "0." + std::string(n - 6, '0') + "1e80"; break;
+      case 3: tok = "-" + std::string(n - 3, '9') + ".5"; break;
+      default: tok = std::string(n - 1, '0') + "1"; break;
+    }
+    size_t p = in.bytes.find_first_of("0123456789");
+    if (p != std::string::npos && r.chance(2, 3)) { size_t e = in.bytes.find_first_not_of("0123456789.eE+-", p); in.bytes.replace(p, (e == std::string::npos ? in.bytes.size() : e) - p, tok); }
+    else in.bytes = r.coin() ? tok : (r.coin() ? "[" + tok + "]" : "{\"k\":" + tok + "}");
+    in.cls = 6;
+  }
   return in;
 }
 
